@@ -23,6 +23,7 @@ import (
 	"sync"
 	"sync/atomic"
 	"testing"
+	"time"
 
 	"github.com/nuts-foundation/nuts-node/crypto/hash"
 	"github.com/nuts-foundation/nuts-node/network/dag"
@@ -52,6 +53,8 @@ type scenario struct {
 	expectNo          bool   // XOR-colliding difference: the protocol cannot see it (known finding); reported under its own key
 	maxLC             uint32
 	maxDiff           int
+	forkDesc          []string // deep-fork: what every node starts with
+	forkLow           uint32   // deep-fork: the lowest of the branch tops
 }
 
 func (sc *scenario) stream() string { return fmt.Sprintf("scenario-%d", sc.idx) }
@@ -127,6 +130,7 @@ type suite struct {
 	capOK    int // IBLT: largest difference for which every trial decoded
 	capFail  int // smallest difference for which no trial decoded
 	maxUnion int
+	fork     *forkFamily // the sides and cases of the deep-fork class
 }
 
 func (su *suite) setTopo(sc *scenario, rnd *rand.Rand) {
@@ -148,8 +152,12 @@ func (su *suite) build(idx int, class string, n int, size int, profile string) *
 	sc.faults = 40 + rnd.Intn(60*n)
 	sc.newTx = rnd.Intn(5)
 	shape := func() dagx.Shape { return shapes[rnd.Intn(len(shapes))] }
+	variant := size
 	size = max(size, 6)
 	switch class {
+	case "deep-fork":
+		// large disjoint branches on a common prefix ending on different pages, see fork_test.go
+		su.buildFork(sc, su.fork.cases[variant], rnd)
 	case "identical":
 		sc.w = newWorld(int64(idx), nil)
 		g := sc.w.gen(rnd, shape(), 3+rnd.Intn(size), nil)
@@ -378,6 +386,12 @@ type result struct {
 
 func (su *suite) run(sc *scenario) {
 	r := su.r
+	if os.Getenv("VERIF_C07_TIMING") != "" {
+		t0 := time.Now()
+		defer func() {
+			fmt.Fprintf(os.Stderr, "timing: scenario %d %s N=%d union=%d: %v\n", sc.idx, sc.class, sc.n, len(sc.w.valid), time.Since(t0).Round(time.Millisecond))
+		}()
+	}
 	dir, err := os.MkdirTemp(su.dir, fmt.Sprintf("s%d-", sc.idx))
 	if err != nil {
 		r.Fatalf("tmp: %v", err)
@@ -594,7 +608,15 @@ func (su *suite) run(sc *scenario) {
 		"pages": sc.pages(), "fault_steps": faultSteps, "admitted_during_fault_phase": gainedInFault, "fair_rounds_to_converge": rounds, "R": R, "converged": conv,
 		"steps": s.step, "dropped": s.stats["dropped"], "duplicated": s.stats["duplicated"], "delayed": s.stats["delayed"], "stale": s.stats["stale_injected"],
 		"forged": forged, "tampered_offered": s.stats["invalid_offered"], "trace_head": head(s.trace, 12)}
-	if sc.idx%7 == 0 || class == "far-behind" || class == "iblt-overflow" {
+	if class == "deep-fork" {
+		sample["nodes_start_with"] = sc.forkDesc
+		sample["walk_down_states"] = s.stats["walkdown/state_for_lower_page"]
+		sample["walk_down_states_peer_pages_ahead"] = s.stats["walkdown/state_for_lower_page/peer_pages_ahead"]
+		sample["page0_range_queries_after_undecodable_set"] = s.stats["walkdown/page0_range_query"]
+		sample["max_deliveries_in_a_fair_round"] = s.maxRound
+		r.Count(fmt.Sprintf("deep_fork_cases/behind_page_%d/ahead_page_%d", sc.forkLow/dag.PageSize, sc.maxLC/dag.PageSize), 1)
+	}
+	if sc.idx%7 == 0 || class == "far-behind" || class == "iblt-overflow" || class == "deep-fork" {
 		r.Sample(sample)
 	}
 }
@@ -635,6 +657,9 @@ func TestCheck(t *testing.T) {
 	r.SetRule("one case = one scenario: a group of N in {2,3,4} real nodes (topology pair/line/triangle/ring/star/full) seeded with generated valid DAGs sharing one root " +
 		"(classes: identical, disjoint branches, behind, far-behind [root vs >1500 transactions over 4 pages], arbitrary [ancestor closures of random samples of one union], " +
 		"iblt-overflow [difference inside page 0 larger than one IBLT decodes], iblt-overflow-late [the same in page 1], multi-page [side branches in several pages of a long common prefix], " +
+		"deep-fork [two or three nodes that each own a large branch (chain or wide) on a common prefix of 1..~450 transactions, the branch tops on different pages: one or two pages apart, " +
+		"at the first/last clock of a page, the peer's transactions on the requester's pages below/above the observed IBLT capacity; either node index ahead; an undecodable TransactionSet must be walked down " +
+		"page by page to a decodable page or the page-0 range query and up again], " +
 		"private [participant lists, payload held or not], gossip-ahead [a node behind in clock announces fresh transactions of its own branch], xor-collision), a seeded fault phase (deliver in any order, drop, duplicate, delay, stale/unsolicited copies, gossip ticks, " +
 		"conversation expiry/eviction, transactions created at nodes, forged Gossip/TransactionSet/TransactionList carrying tampered transactions) and a fair phase of gossip rounds. " +
 		"Scenario list, DAGs, topology and every adversary choice are functions of (seed, tier, scenario index). Non-trivial: the nodes start with at least two different sets or " +
@@ -664,6 +689,7 @@ func TestCheck(t *testing.T) {
 		return
 	}
 	// templates: long common prefixes, built once
+	tStart := time.Now()
 	var tw sync.WaitGroup
 	var tmu sync.Mutex
 	for _, spec := range []struct {
@@ -684,7 +710,24 @@ func TestCheck(t *testing.T) {
 			tmu.Unlock()
 		}()
 	}
+	tw.Add(1)
+	go func() {
+		defer tw.Done()
+		fam, err := su.buildForkFamily(dir, r.Thorough())
+		if err != nil {
+			r.Fatalf("deep-fork family: %v", err)
+		}
+		su.fork = fam
+	}()
 	tw.Wait()
+	if os.Getenv("VERIF_C07_TIMING") != "" {
+		fmt.Fprintf(os.Stderr, "timing: templates and deep-fork family: %v\n", time.Since(tStart).Round(time.Millisecond))
+	}
+	var sideDesc []string
+	for _, n := range su.fork.names {
+		sideDesc = append(sideDesc, su.fork.sides[n].String())
+	}
+	r.Extra("deep_fork_sides", sideDesc)
 
 	// ---- the scenario list: a pure function of (seed, tier)
 	plan := r.Rand("plan")
@@ -718,6 +761,12 @@ func TestCheck(t *testing.T) {
 		}
 		special = append(special, spec{"xor-collision", 3, 0, "chaotic"})
 	}
+	// deep-fork: every case of the family (fork_test.go); size = index of the case
+	var forks []spec
+	for i, c := range su.fork.cases {
+		forks = append(forks, spec{"deep-fork", len(c.sides), i, c.profile})
+	}
+	special = append(forks, special...)
 	specs = append(special, specs...) // the long ones first: better use of the worker pool
 
 	// scenarios are independent single-threaded simulations; several run side by side
